@@ -33,7 +33,7 @@ GEN_SCOPE = {
     "C07": ["Fb_read_frame", "Fb_io_read", "Ad_chain_read", "Ad_take_read", "SrcC07"] + _DF + _ASYNC + _AAD_R + ["Tk_afb_poll_read"],
     "C08": ["Ad_chain_read", "SrcC08"], "C09": ["Ad_take_read", "SrcC09"],
     "C10": ["Fb_deframe", "Fb_mem_", "SrcC10"] + _DF, "C11": ["Fb_try_parse", "SrcC11"] + _READS,
-    "C12": ["Fb_read_frame", "Fb_copy_once_from", "SrcC12"],
+    "C12": ["Fb_read_frame", "Fb_copy_once_from", "RfSource", "SrcC12"],
     "C13": ["Ad_chain_write", "Ad_chain_flush", "Ad_take_write", "Ad_take_flush"] + _AAD_W + ["SrcC13"],
     "C16": _AAD_R + ["SrcC16"], "C17": _AFB + ["SrcC17"],
     "C14": _ASYNC + ["SrcC14"], "C15": _ASYNC + ["SrcC14"],
